@@ -145,6 +145,9 @@ func newUniverseValue(goType string, _ bool) reflect.Value {
 	if !ok {
 		panic("unknown universe type " + goType)
 	}
+	if t.Kind() == reflect.Map {
+		return reflect.MakeMap(t) // bound by value
+	}
 	return reflect.New(t)
 }
 
@@ -345,7 +348,49 @@ func (r *RAlphaBeta) Resolve(f *ggql.Field, a map[string]interface{}) (interface
 	return r.rn.Resolve(f, a)
 }
 
+// Resolver-implementing universe types whose Go kind is not a struct: named maps. They are bound
+// to their object types like any other Go type (RegisterType) and take part in abstract-type dispatch.
+type MAlpha map[string]interface{}
+type MBeta map[string]interface{}
+type MGamma map[string]interface{}
+type MDelta map[string]interface{}
+type MAlphaBeta map[string]interface{}
+
+func mapResolve(m map[string]interface{}, f *ggql.Field, a map[string]interface{}) (interface{}, error) {
+	return m["rn"].(*RNode).Resolve(f, a)
+}
+func (m MAlpha) Resolve(f *ggql.Field, a map[string]interface{}) (interface{}, error) {
+	return mapResolve(m, f, a)
+}
+func (m MBeta) Resolve(f *ggql.Field, a map[string]interface{}) (interface{}, error) {
+	return mapResolve(m, f, a)
+}
+func (m MGamma) Resolve(f *ggql.Field, a map[string]interface{}) (interface{}, error) {
+	return mapResolve(m, f, a)
+}
+func (m MDelta) Resolve(f *ggql.Field, a map[string]interface{}) (interface{}, error) {
+	return mapResolve(m, f, a)
+}
+func (m MAlphaBeta) Resolve(f *ggql.Field, a map[string]interface{}) (interface{}, error) {
+	return mapResolve(m, f, a)
+}
+
+// newUniverseMap builds a UM node: a named map holding poison and the fixture node it delegates to.
+func (w *World) newUniverseMap(goType string, id int) reflect.Value {
+	rn := &RNode{w: w, id: id}
+	w.rnodes[id] = rn
+	m := reflect.MakeMap(universeTypes[goType])
+	m.SetMapIndex(reflect.ValueOf("rn"), reflect.ValueOf(rn))
+	m.SetMapIndex(reflect.ValueOf("str"), reflect.ValueOf(poisonStr))
+	return m
+}
+
 func init() {
+	universeTypes["MAlphaBeta"] = reflect.TypeOf(MAlphaBeta{})
+	universeTypes["MAlpha"] = reflect.TypeOf(MAlpha{})
+	universeTypes["MBeta"] = reflect.TypeOf(MBeta{})
+	universeTypes["MGamma"] = reflect.TypeOf(MGamma{})
+	universeTypes["MDelta"] = reflect.TypeOf(MDelta{})
 	universeTypes["RAlphaBeta"] = reflect.TypeOf(RAlphaBeta{})
 	universeTypes["RAlpha"] = reflect.TypeOf(RAlpha{})
 	universeTypes["RBeta"] = reflect.TypeOf(RBeta{})
